@@ -19,8 +19,12 @@ from .c16_util import Hung, exact_delay, time_limit
 
 SPEC = tlc.SPECS / "cache"
 INVS = ["InvCapacity", "InvPolicyKeys", "InvReadFresh"]
-DEVIATIONS = {"tier_promotion_overwrites_newer_write": "InvReadFresh"}
-KNOWN_CODES = {1: "tier_promotion_overwrites_newer_write"}
+DEVIATIONS = {"tier_promotion_overwrites_newer_write": "InvReadFresh", "l1_put_rewrites_backing_late": "InvReadFresh"}
+KNOWN_CODES = {1: "tier_promotion_overwrites_newer_write", 2: "l1_put_rewrites_backing_late"}
+# the as-code second backing write of L1.put() needs five operations in three clients to matter: its sensitivity
+# run (and the Dev={} counterpart) executes the directed program of TieredMC.tla instead of enumerating
+SCRIPTED = {"l1_put_rewrites_backing_late": dict(nops=(1, 3, 1), gaps=(0, 1, 2), kinds=("get", "put", "inv"),
+                                                 l2pre=(), script="rewrite")}
 LIGHT_JVM = {"_JAVA_OPTIONS": "-XX:TieredStopAtLevel=1 -XX:ParallelGCThreads=2 -XX:CICompilerCount=1"}
 LAT0 = {"CL1": 1, "CL2": 2, "RL": 2, "WL": 2, "DL": 2}
 PROMO = {"always": "always", "second": "on_second_access", "never": "never"}
@@ -31,12 +35,12 @@ def tla_set(items):
 
 
 def mc_consts(*, K=2, cap1=1, cap2=2, pol="ANY", promo="always", dev=(), nops=(2, 1, 0), gaps=(0, 1),
-              kinds=("get", "put", "del", "inv"), pre=(1, 2), l2pre=(1,), lat=None):
+              kinds=("get", "put", "del", "inv"), pre=(1, 2), l2pre=(1,), lat=None, script="none"):
     lat = lat or LAT0
     c = {"K": K, "Cap1": cap1, "Cap2": cap2, "Pol": f'"{pol}"', "Promo": f'"{promo}"', "Dev": tla_set(dev),
          "NP": len([n for n in nops if n > 0]), "N1": nops[0], "N2": nops[1], "N3": nops[2],
          "Kinds": tla_set(kinds), "Gaps": tla_set(gaps), "Pre": tla_set(pre), "L2Pre": tla_set(l2pre),
-         "TTLv": pol9.PAR["ttl"], "SS": pol9.PAR["ss"]}
+         "TTLv": pol9.PAR["ttl"], "SS": pol9.PAR["ss"], "UseScript": f'"{script}"'}
     c.update(lat)
     return c
 
@@ -253,6 +257,27 @@ def random_case(rng, i):
                      seed=rng.randrange(1 << 30)), prog
 
 
+def race_cases(quick):
+    """Directed overlap grids: two overlapping put()s to one key, the key invalidated (or evicted from the
+    capacity-1 L1 by a fill of another key) after the first put landed, and a get whose fetch returns inside
+    the window in which the first put's late second write has rolled the backing store back."""
+    out = []
+    n = 0
+    lats = [LAT0] if quick else LATS + [{"CL1": 1, "CL2": 1, "RL": 1, "WL": 3, "DL": 3}]
+    for lat in lats:
+        for pol in pol9.POLICIES:
+            for rem in (["inv", 1], ["get", 2]):
+                for b in ((1,) if quick else (1, 2)):
+                    for r in ((2, 3) if quick else (1, 2, 3, 4)):
+                        for g in ((0, 1) if quick else (0, 1, 2)):
+                            n += 1
+                            cfg = world_cfg(K=2, cap1=1, cap2=2, pol=pol, promo=("always", "second", "never")[n % 3],
+                                            lat=lat, pre=[101, 102], l2=[0, 0], seed=n)
+                            out.append((cfg, [[["put", 1, 0]], [["inv", 2, 0], rem + [r], ["get", 1, g]],
+                                              [["put", 1, b]]]))
+    return out
+
+
 class Runs:
     def __init__(self, chk):
         self.chk = chk
@@ -319,8 +344,12 @@ def submit(pool, quick):
         jobs["clean_3p"] = pool.submit(job, "C16_mt_clean3", mc_consts(nops=(1, 1, 1), kinds=("get", "put", "inv")),
                                        invariants=INVS, workers=6, timeout=6000)
     for dev in DEVIATIONS:
-        jobs[f"dev_{dev}"] = pool.submit(job, "C16_mt_dev", mc_consts(dev=[dev]), invariants=INVS, workers=2,
-                                         light=True)
+        kw = SCRIPTED.get(dev, {})
+        jobs[f"dev_{dev}"] = pool.submit(job, f"C16_mt_dev_{dev[:8]}", mc_consts(dev=[dev], **kw), invariants=INVS,
+                                         workers=2, light=True)
+        if kw:      # the same directed program must satisfy the contract in the repaired design
+            jobs[f"clean_script_{dev}"] = pool.submit(job, f"C16_mt_scr_{dev[:8]}", mc_consts(**kw), invariants=INVS,
+                                                      workers=1, light=True)
     return jobs
 
 
@@ -338,7 +367,8 @@ def collect(chk, jobs, runs):
             plog = res.trace[-1][1].get("plog") if res.trace else None
             if plog:
                 prog = [[[c["kind"], c["k"], c["gap"]] for c in sc] for sc in plog]
+                l2 = [0, 0] if dev in SCRIPTED else [101, 0]
                 for pol in ("LRU", "FIFO"):
                     runs.execute(world_cfg(K=2, cap1=1, cap2=2, pol=pol, promo="always", lat=LAT0, pre=[101, 102],
-                                           l2=[101, 0]), prog, f"tlc_counterexample:{dev}")
+                                           l2=l2), prog, f"tlc_counterexample:{dev}")
                     chk.replays += 1
